@@ -1,0 +1,101 @@
+// Copyright 2026 foyer Project Authors
+//
+// Licensed under the Apache License, Version 2.0 (the "License");
+// you may not use this file except in compliance with the License.
+// You may obtain a copy of the License at
+//
+//     http://www.apache.org/licenses/LICENSE-2.0
+//
+// Unless required by applicable law or agreed to in writing, software
+// distributed under the License is distributed on an "AS IS" BASIS,
+// WITHOUT WARRANTIES OR CONDITIONS OF ANY KIND, either express or implied.
+// See the License for the specific language governing permissions and
+// limitations under the License.
+
+//! Verification seams (cargo feature `verif`). With the feature off this module does not exist; with it
+//! on and nothing installed the behaviour is unchanged.
+//!
+//! * [`set_spawner`]: how `RawCache::resize` runs its per-shard jobs. The default is `std::thread::spawn`;
+//!   a harness can run them inline or on threads owned by its scheduler.
+//! * [`set_atomic_point`]: a callback invoked before every atomic operation on a record's reference count
+//!   and flags, so that a cooperative scheduler can switch threads there.
+
+use std::sync::{
+    Arc, Mutex, RwLock,
+    atomic::{AtomicUsize, Ordering},
+};
+
+/// A per-shard resize job.
+pub type Job = Box<dyn FnOnce() + Send + 'static>;
+/// Waits until the job it was returned for has finished.
+pub type Joiner = Box<dyn FnOnce() + Send + 'static>;
+/// Runs a job somewhere and returns how to wait for it.
+pub type Spawner = Arc<dyn Fn(Job) -> Joiner + Send + Sync + 'static>;
+
+static SPAWNER: RwLock<Option<Spawner>> = RwLock::new(None);
+static ATOMIC_POINT: AtomicUsize = AtomicUsize::new(0);
+
+/// Install (or remove) the spawner used by `RawCache::resize`.
+pub fn set_spawner(spawner: Option<Spawner>) {
+    *SPAWNER.write().unwrap() = spawner;
+}
+
+/// Install (or remove) the callback invoked before every atomic operation on a record.
+pub fn set_atomic_point(f: Option<fn()>) {
+    ATOMIC_POINT.store(f.map(|f| f as usize).unwrap_or(0), Ordering::SeqCst);
+}
+
+#[inline]
+pub(crate) fn atomic_point() {
+    let p = ATOMIC_POINT.load(Ordering::Relaxed);
+    if p != 0 {
+        // Safety: only `set_atomic_point` stores here, and it stores a `fn()`.
+        let f: fn() = unsafe { std::mem::transmute::<usize, fn()>(p) };
+        f();
+    }
+}
+
+enum Inner<T> {
+    Std(std::thread::JoinHandle<T>),
+    Hooked {
+        joiner: Joiner,
+        slot: Arc<Mutex<Option<std::thread::Result<T>>>>,
+    },
+}
+
+/// Stand-in for `std::thread::JoinHandle` in `RawCache::resize`.
+pub struct JoinHandle<T>(Inner<T>);
+
+impl<T> JoinHandle<T> {
+    /// Wait for the job and return its result (`Err` carries the payload of a panic).
+    pub fn join(self) -> std::thread::Result<T> {
+        match self.0 {
+            Inner::Std(h) => h.join(),
+            Inner::Hooked { joiner, slot } => {
+                joiner();
+                slot.lock().unwrap().take().expect("verif spawner: joiner returned before the job ran")
+            }
+        }
+    }
+}
+
+/// Stand-in for `std::thread::spawn` in `RawCache::resize`.
+pub fn spawn<F, T>(f: F) -> JoinHandle<T>
+where
+    F: FnOnce() -> T + Send + 'static,
+    T: Send + 'static,
+{
+    let spawner = SPAWNER.read().unwrap().clone();
+    match spawner {
+        None => JoinHandle(Inner::Std(std::thread::spawn(f))),
+        Some(spawner) => {
+            let slot = Arc::new(Mutex::new(None));
+            let out = slot.clone();
+            let joiner = spawner(Box::new(move || {
+                let res = std::panic::catch_unwind(std::panic::AssertUnwindSafe(f));
+                *out.lock().unwrap() = Some(res);
+            }));
+            JoinHandle(Inner::Hooked { joiner, slot })
+        }
+    }
+}
